@@ -407,3 +407,18 @@ impl AuthRig {
     }
   }
 }
+
+// ---- strengthening round 3: what a participant ANNOUNCES as its GUID (add-only) ----
+impl AuthRig {
+  /// From now on party `i` announces `guid` as its participant GUID: in the
+  /// serialized participant data it hands to begin_handshake_request /
+  /// begin_handshake_reply (c.pdata) and, as SPDP would carry it, in the GUID
+  /// prefix its peers pass to validate_remote_identity (`meet`). The identity
+  /// (certificate, key, local identity handle) is untouched; `guid(i)` returns
+  /// the announced GUID afterwards, so read the certificate-bound one before.
+  pub fn announce_guid(&mut self, i: usize, guid: [u8; 16]) {
+    let p = &mut self.parties[i];
+    p.guid = GUID::from_bytes(guid);
+    p.pdata = pdata_for(guid);
+  }
+}
